@@ -11,7 +11,7 @@ import random
 
 NAMES = ['a', 'b', 'c', 'x', 'y', 'value', 'items', 'self', 'n', 'data_1', 'Ab', 'T', 'k', 'v', 'fn', 'Base', 'Sub', 'e']
 TYPES = ['int', 'str', 'float', 'bool', 'None', 'A', 'list[int]', 'dict[str, int]', 'tuple[int, str]', 'int | None', "'A'", "list['A']", 'Callable[[int], str]', 'a.B']
-STRINGS = ["'s'", '"d"', "''", "'a b'", "'あい'", "'v\x0bt'", "'u\u2028s'", "'\x1c\x85'", "f'{a}x'", "r'\\d+'", '"""doc"""', "'it\\'s'"]
+STRINGS = ["'cafe\u0301'", "'\u212b\u304b\u3099'", "'s'", '"d"', "''", "'a b'", "'あい'", "'v\x0bt'", "'u\u2028s'", "'\x1c\x85'", "f'{a}x'", "r'\\d+'", '"""doc"""', "'it\\'s'"]
 NUMBERS = ['0', '1', '42', '1.5', '0x1F', '10', '3.0']
 
 
@@ -182,7 +182,7 @@ class Gen:
 		if r < 0.88:
 			return f'yield {e()}'
 		if r < 0.93:
-			return self.rng.choice(['# comment', '# コメント あ', '#', '# a\tb', '# trailing blanks  ', '#\t', '# x \t ', '# page\x0cbreak', '# \x1d\u2029'])
+			return self.rng.choice(['# comment', '# コメント あ', '#', '# a\tb', '# trailing blanks  ', '#\t', '# x \t ', '# page\x0cbreak', '# \x1d\u2029', '# cafe\u0301 menu', '# \u1112\u1161\u11ab \u212b \u30cf\u309a'])
 		if r < 0.96:
 			return e()
 		return self.rng.choice(["'''doc\n\tstring'''", '"""one"""'])
